@@ -51,4 +51,5 @@ int fillTo(int v, size_t n = 3);
 int get(int k);
 void setv(int a);
 int setv(const std::string &name, double v = 1.5);
+int add(const std::string &s);
 #endif
